@@ -41,6 +41,20 @@ CHECKS = {
             "every variant-producing leaf is exactly the single point (CLASS, INSTR) of its payload type, decodes the whole "
             "input with that type's own decoder and wraps its result; everything else and every short input is Err; table == spec.",
             "Complete for the property's quantifier (control fields); body contents are delegated to the payload decoder (C02/C03). " + TB),
+    "C05": ("model_checking", "5.5",
+            "event-graph projection of coroutine MIR + protocol-monitor product construction over all paths",
+            "All 18 sequences (12 distinct stream bodies): a protocol monitor is run over the event graph of the real coroutine "
+            "body as a product construction, which covers every reply script of every length: command once, ack outcome examined, "
+            "exactly one answer per packet before yield and before the next read, end exactly after the first final packet "
+            "(final set by control field from the spec tables), no transport call afterwards.",
+            "The explored object is the implementation's own control-flow graph (no hand-written model). Assumes futures act only "
+            "when awaited and async-stream's yield/`?` expansion. " + TB),
+    "C06": ("model_checking", "5.6",
+            "same event graphs/monitor restricted to failure discipline + helper rules in io.rs",
+            "On every err edge of every fallible step in every stream body: exactly one Err item then end, no write/read after, "
+            "no Err item without failure, every transport outcome examined; the acknowledgement parser accepts exactly 80 00 and "
+            "read_packet propagates parse errors. All paths, all fault positions.",
+            "Fault kinds are abstracted to 'the step returned Err'; that each fault kind makes the step return Err is C02/C04/C15. " + TB),
 }
 
 NOT_YET = "check not yet built in this commit (under construction, see DESIGN.md section 10)"
